@@ -139,3 +139,17 @@ func init() {
 	register("C14", ruleScale)
 	register("C16", ruleQRFormulas)
 }
+
+func init() {
+	register("C04", rulePDF417Arith)
+	register("C12", rulePDF417Arith)
+	register("C13", rulePDF417Arith)
+	register("C10", rulePDF417Arith)
+	register("C17", ruleGFPolyArith)
+	register("C03", ruleAztecHighLevel)
+}
+
+func init() {
+	register("C02", ruleDataMatrixMerge)
+	register("C08", ruleGuards)
+}
